@@ -119,6 +119,18 @@ def random_cases(run: lib.Run, n: int):
     env0 = {"subject": {"id": "u"}, "action": "read", "resource": {"type": "doc", "id": "1"}, "context": {"n": {"real": 5}}}
     for c in odd:
         yield c, env0, f"odd:{c!r}"
+    # two operator keys in one document: the FIRST one in the order of the `if` chain decides (the model dispatches in that order), so
+    # every ordered pair (one operator true, the other false) pins the order of two branches
+    t0, t1, t2, t3 = "2024-01-01T00:00:00Z", "2024-06-01T00:00:00Z", "2025-01-01T00:00:00Z", "2026-01-01T00:00:00Z"
+    tf = {"==": ([1, 1], [1, 2]), "!=": ([1, 2], [1, 1]), ">": ([2, 1], [1, 2]), "<": ([1, 2], [2, 1]), ">=": ([2, 1], [1, 2]),
+          "<=": ([1, 2], [2, 1]), "contains": (["ab", "a"], ["ab", "c"]), "in": (["a", "ab"], ["c", "ab"]),
+          "hasAll": ([[1, 2], [1]], [[1], [2]]), "hasAny": ([[1, 2], [1]], [[1], [2]]), "startsWith": (["ab", "a"], ["ab", "b"]),
+          "endsWith": (["ab", "b"], ["ab", "a"]), "before": ([t0, t1], [t1, t0]), "after": ([t1, t0], [t0, t1]),
+          "between": ([t1, [t0, t2]], [t1, [t2, t3]])}
+    for p in tf:
+        for q in tf:
+            if p != q:
+                yield {p: tf[p][0], q: tf[q][1]}, env0, f"twokeys:{p}+{q}"
     # nesting far deeper than any hand-written document (generated policies fold lists pairwise): the meaning of and/or/not does not
     # depend on the depth at which they stand
     for depth in (31, 32, 33, 34, 65, 120):
@@ -222,6 +234,174 @@ def through_guard(run: lib.Run, batch: list, answers: list) -> None:
     run.evaluations += picked
 
 
+# ----------------------------------------------------------------------------- translated source vs python (C04_translated)
+
+
+class _ExtRecorder:
+    """records what the EXTERNAL functions of the translation (`getattr`, `_parse_dt`: not translated, parameters of
+    `Src.eval_condition`) did while the real code ran: rows `[[arguments…], outcome]`; `bad` = a value outside the value universe"""
+
+    def __init__(self):
+        self.rows = {"getattr": {}, "_parse_dt": {}}
+        self.bad = False
+
+    def note(self, name, args, thunk):
+        import json
+        try:
+            key = [proto.enc(a) for a in args]
+        except TypeError:
+            key, self.bad = None, True
+        try:
+            val = thunk()
+        except rpolicy.ConditionTypeError:
+            if key is not None:
+                self.rows[name].setdefault(json.dumps(key), [key, {"err": "mismatch"}])
+            raise
+        except Exception as e:  # noqa: BLE001
+            if key is not None:
+                self.rows[name].setdefault(json.dumps(key), [key, {"err": "raised:" + type(e).__name__}])
+            raise
+        try:
+            if key is not None:
+                self.rows[name].setdefault(json.dumps(key), [key, {"ok": proto.enc(val)}])
+        except TypeError:
+            self.bad = True
+        return val
+
+
+def _outcome(thunk):
+    """{"ok": encoded value} | {"err": "mismatch"} | {"err": "raised:Cls"}; None when the value is outside the value universe"""
+    try:
+        val = thunk()
+    except rpolicy.ConditionTypeError:
+        return {"err": "mismatch"}
+    except Exception as e:  # noqa: BLE001
+        return {"err": "raised:" + type(e).__name__}
+    try:
+        return {"ok": proto.enc(val)}
+    except TypeError:
+        return None
+
+
+def _rel_subconds(c, out: list) -> None:
+    if isinstance(c, dict):
+        if "rel" in c:
+            out.append(c)
+        for v in c.values():
+            _rel_subconds(v, out)
+    elif isinstance(c, (list, tuple)):
+        for v in c:
+            _rel_subconds(v, out)
+
+
+def translated_vs_python(run: lib.Run) -> tuple[bool, str]:
+    """the translated condition evaluator (Generated.Src.eval_condition and helpers, exception-passing style, evaluated by
+    `lake env lean --run Rbacx/Run/SrcEvalCond.lean`) against the REAL functions on the same arguments: result value or WHICH exception
+    (ConditionTypeError / builtin class).  The externals of the translation get their values from the real Python per input line:
+    `getattr` and `_parse_dt` are recorded while the real `eval_condition` runs, `rel_branch` is the real `eval_condition` on every
+    sub-condition with a `rel` key.  Validates harness/pytolean_except.py and Model/PyExcept.lean, the two things C04_translated trusts."""
+    import builtins
+    import copy
+    import json
+    import subprocess
+    from rbacx.core.relctx import REL_CHECKER, REL_LOCAL_CACHE
+    quick = run.tier == "quick"
+    rec = _ExtRecorder()
+    real_parse = rpolicy._parse_dt
+
+    def rec_getattr(obj, name, *default):
+        return rec.note("getattr", [obj, name, *default], lambda: builtins.getattr(obj, name, *default))
+
+    def rec_parse(x, strict=None):
+        return rec.note("_parse_dt", [x, strict], lambda: real_parse(x, strict=strict))
+
+    def with_rel(rel, thunk):
+        toks = []
+        if rel is not None:
+            toks = [(REL_CHECKER, REL_CHECKER.set(real.TableRel(rel["table"], rel.get("default"), []))),
+                    (REL_LOCAL_CACHE, REL_LOCAL_CACHE.set({}))]
+        try:
+            return thunk()
+        finally:
+            for var, tok in reversed(toks):
+                var.reset(tok)
+
+    calls = []      # (fn, encoded args, wanted outcome, ext tables, label, raw args)
+    skipped = 0
+    rpolicy.getattr = rec_getattr          # a module global shadows the builtin for the functions of rbacx.core.policy
+    rpolicy._parse_dt = rec_parse
+    try:
+        stride = 3 if quick else 1
+        conds = itertools.chain(((c, e, l, None) for k, (c, e, l) in enumerate(cells(quick)) if k % stride == 0),
+                                ((c, e, l, None) for c, e, l in random_cases(run, (600 if quick else 6000) * run.boost)),
+                                rel_tree_cases(run, (300 if quick else 3000) * run.boost))
+        for cond, env, label, rel in conds:
+            rec.rows, rec.bad = {"getattr": {}, "_parse_dt": {}}, False
+            want = with_rel(rel, lambda: _outcome(lambda: rpolicy.eval_condition(copy.deepcopy(cond), copy.deepcopy(env))))
+            subs: list = []
+            _rel_subconds(cond, subs)
+            relrows: dict = {}
+            try:
+                for sc in subs:
+                    key = [proto.enc(sc), proto.enc(env)]
+                    # a fresh memo per sub-condition: the table checker is a function of the lookup, so the memo cannot change an answer
+                    relrows.setdefault(json.dumps(key[0]), [key, with_rel(rel, lambda: _outcome(
+                        lambda: rpolicy.eval_condition(copy.deepcopy(sc), copy.deepcopy(env))))])
+                args = [proto.enc(cond), proto.enc(env)]
+            except TypeError:
+                skipped += 1
+                continue
+            if want is None or rec.bad or any(r_[1] is None for r_ in relrows.values()):
+                skipped += 1        # a value outside the value universe (e.g. getattr found a method of a builtin value: DESIGN §2.1 ii)
+                continue
+            ext = {"getattr": list(rec.rows["getattr"].values()), "_parse_dt": list(rec.rows["_parse_dt"].values()),
+                   "rel_branch": list(relrows.values())}
+            calls.append(("eval_condition", args, want, ext, label, (cond, env)))
+        vals = values()
+        for a in vals:
+            for b in vals:
+                for fn, f in (("_ensure_str", rpolicy._ensure_str), ("_ensure_numeric_strict", rpolicy._ensure_numeric_strict)):
+                    calls.append((fn, [proto.enc(a), proto.enc(b)], _outcome(lambda: f(a, b)), {}, fn, (a, b)))
+            calls.append(("_as_collection", [proto.enc(a)], _outcome(lambda: rpolicy._as_collection(a)), {}, "_as_collection", (a,)))
+        for env in ({}, {"__strict_types__": True}, {"__strict_types__": 0}, {"__strict_types__": "no"}, {"__strict_types__": []},
+                    {"__strict_types__": None}, {"__strict_types__": 0.0}, {"other": True}, None, "x", [], 5, 1.5):
+            calls.append(("_is_strict", [proto.enc(env)], _outcome(lambda: rpolicy._is_strict(env)), {}, "_is_strict", (env,)))
+        envs = [{"a": {"b": {"c": 5}}, "": {"": 7}, "l": [1, 2], "s": "txt", "n": None}, {}, None, "x", [1], 5]
+        for path in ("a", "a.b", "a.b.c", "a.b.c.d", "a.x.c", "", ".", "..", "a.", ".a", "l", "l.0", "s.zzz", "n.k", 5, None, 1.5, ["a"], {"k": 1}, True):
+            for env in envs:
+                for tok in ({"attr": path}, {"attr": path, "other": 1}, path, [path], {"other": path}):
+                    rec.rows, rec.bad = {"getattr": {}, "_parse_dt": {}}, False
+                    want = _outcome(lambda: rpolicy.resolve(copy.deepcopy(tok), copy.deepcopy(env)))
+                    if want is None or rec.bad:
+                        skipped += 1
+                        continue
+                    calls.append(("resolve", [proto.enc(tok), proto.enc(env)], want, {"getattr": list(rec.rows["getattr"].values())}, "resolve", (tok, env)))
+    finally:
+        del rpolicy.getattr
+        rpolicy._parse_dt = real_parse
+    lines = [json.dumps({"fn": fn, "args": args, "oracle": proto.build_oracle(*raw), "ext": ext}) for fn, args, _w, ext, _l, raw in calls]
+    p = subprocess.run(["lake", "env", "lean", "--run", "Rbacx/Run/SrcEvalCond.lean"], cwd=lib.LEAN, input="\n".join(lines) + "\n",
+                       capture_output=True, text=True, timeout=900)
+    outs = [ln for ln in p.stdout.split("\n") if ln]
+    if p.returncode != 0 or len(outs) != len(lines):
+        return False, "SrcEvalCond: " + (p.stderr or p.stdout)[-800:]
+    bad = 0
+    for (fn, _args, want, _ext, label, raw), ln in zip(calls, outs):
+        got = json.loads(ln)
+        run.count("translated-cond")
+        run.count(f"translated-cond: {fn} -> " + (want["err"] if "err" in want else "value"))
+        if got != want:
+            bad += 1
+            if bad == 1:
+                run.disagreements.append({"part": "translated source vs python", "function": fn, "label": label, "args": list(raw),
+                                          "impl": {"python": want}, "model": got,
+                                          "what": f"the translated {fn} (Generated.Src, exception-passing) and the real function differ"})
+    if skipped:
+        run.hist["translated-cond: outside the value universe (not evaluated)"] = skipped
+    run.evaluations += len(calls)
+    return bad == 0, f"{bad} of {len(calls)} evaluations differ" if bad else f"agree on {len(calls)} evaluations"
+
+
 def check(run: lib.Run, audit: dict) -> int:
     run.rule = ("exhaustive cells: 15 operators × 38 left values × 38 right values (incl. a 12-element list and lists with a nested list / object member) (every JSON kind, near-duplicates 1/'1'/1.0/True, "
                 "NaN/Inf/10^400, NFC/NFD twins, case and trailing-blank twins, ISO strings, epochs, naive/aware datetimes) × lax/strict × literal/attribute placement "
@@ -235,25 +415,63 @@ def check(run: lib.Run, audit: dict) -> int:
                        "datetime.fromisoformat / fromtimestamp are oracles computed by the harness"]
     if not audit["ok"]:
         raise lib.CheckError(f"Lean build/audit failed at {audit['stage']}: {audit.get('log') or audit.get('forbidden') or audit.get('bad_axioms')}")
-    run_cases(run, audit, scale=run.boost)
+    # the condition evaluator as it is written NOW, translated into Lean in exception-passing style, is proved equal to the model's
+    # evalCond / evalBin / resolve (per-run obligation); the translation itself is compared with CPython
+    tr = audit["facts"].get("translated_cond")
+    untranslatable = isinstance(tr, dict) and "extraction_failed" in tr
+    ok_tr, detail_tr = lib.run_obligation("C04_translated")
+    run.obligation("C04_translated: Generated.Src.eval_condition / eval_binops / resolve / _ensure_* (the current source text of the condition "
+                   "evaluator, exception-passing translation; externals getattr, _parse_dt, the rel branch) = the model's evalCond / evalBin / "
+                   "resolve / numericPair, with the same exception classes, for every document, environment and oracle", ok_tr,
+                   "discharged" if ok_tr else (str(tr["extraction_failed"]) if untranslatable else detail_tr))
+    if untranslatable or not isinstance(tr, dict):
+        ok_py, detail_py = True, "skipped: the condition evaluator is not in the translatable subset (see C04_translated)"
+    else:
+        ok_py, detail_py = translated_vs_python(run)
+    run.obligation("translated condition evaluator evaluates like the real eval_condition and helpers, exceptions included "
+                   "(harness/pytolean_except.py + Model/PyExcept.lean vs CPython)", ok_py, detail_py)
+    run_cases(run, audit, scale=run.boost * (1 if ok_tr else 2))
     violations = []
-    if run.disagreements and not run.spec_failures:
+    tr_dis = [d for d in run.disagreements if d.get("part") == "translated source vs python"]
+    model_dis = [d for d in run.disagreements if d.get("part") != "translated source vs python"]
+    if model_dis and not run.spec_failures:
         # a disagreement on a Boolean/mismatch class IS a change of operator meaning: the model's value is the documented one
-        d = run.disagreements[0]
+        d = model_dis[0]
         path = run.write_replay("meaning", {"what": "operator result differs from the documented semantics (model Rbacx.evalCond, theorems Rbacx.C04.*)",
-                                            "case": d, "count": len(run.disagreements)})
+                                            "case": d, "count": len(model_dis)})
         violations.append((path, True))
     elif run.spec_failures:
         path = run.write_replay("spec", {"what": "coercion / raise: result outside the typing table Rbacx.Spec.accepts", "case": run.spec_failures[0],
                                          "count": len(run.spec_failures)})
         violations.append((path, True))
+    elif not ok_tr:
+        path = run.write_replay("obligation", {"what": "per-run obligation Rbacx/Run/C04_translated.lean no longer checks: the translated source of "
+                                               "eval_condition / resolve / _ensure_* is not proved equal to the model's evalCond / evalBin / resolve, "
+                                               "the functions theorems Rbacx.C04.* / Rbacx.C06.* are about; the widened search found no condition "
+                                               "whose result differs from the documented semantics",
+                                               "translation": (tr.get("extraction_failed") if isinstance(tr, dict) else tr),
+                                               "lean": detail_tr[-1500:], "first_disagreement": tr_dis[:1]})
+        violations.append((path, False))
+    elif tr_dis or not ok_py:
+        first = tr_dis[0] if tr_dis else {"part": "translated source vs python", "what": detail_py}
+        path = run.write_replay("correspondence", {"what": "translated source vs python: " + str(first.get("what")) + "; the obligation "
+                                                   "C04_translated rests on a translation that CPython contradicts (or that could not be evaluated)",
+                                                   "first": first, "count": len(tr_dis)})
+        violations.append((path, False))
     return run.finish(audit, violations)
 
 
 def replay(run: lib.Run, audit: dict, path: str) -> int:
     import json
     rp = json.load(open(path))
-    c = rp["case"]
+    c = rp.get("case")
+    if c is None:
+        f = rp.get("first") or (rp.get("first_disagreement") or [None])[0]
+        if f and f.get("function") == "eval_condition":
+            print("eval_condition now:", impl(*f["args"]), "recorded:", f.get("impl"), "translated:", f.get("model"))
+        else:
+            print("nothing to re-run on the implementation:", rp.get("what"))
+        return 0
     if str(c.get("label", "")).endswith("|guard"):
         pol = {"algorithm": "deny-overrides", "rules": [{"id": "c", "effect": "permit", "actions": ["read"], "resource": {"type": "doc"}, "condition": c["cond"]}]}
         env = c["env"]
